@@ -12,7 +12,8 @@ CHECKS = {
             "every packed-string length, boundary sizes of all three length classes and generated recursive trees; the "
             "oracle is a strict structural comparator written in the harness (the library's own __eq__ is not used). "
             "Search, not proof.",
-            "Trusts the harness comparator and tree materialiser; strings restricted to the quantified domain.",
+            "Trusts the harness comparator and tree materialiser; strings restricted to the quantified domain; a codec loop that stops "
+            "making progress is cut by a deterministic iteration budget and reported.",
             "5/C01"),
     "C02": ("exploration",
             "differential testing against an independent reference codec driven by generated encoder choice vectors; "
@@ -32,8 +33,8 @@ CHECKS = {
             "exactly the messages of the model (once, right sender/group, equal content), senders hold the delivery receipts, no "
             "outgoing frame contains a plaintext marker, every outgoing message stanza has only enc children, corrupted stanzas "
             "led to a retry receipt.",
-            "Server double restricted to what the client code consumes; python-axolotl's padding defect (E3) corrected in the "
-            "harness and recorded as external known finding; expiring waits are inconclusive.",
+            "Server double restricted to what the client code consumes; python-axolotl's padding defect (E3) and sender-key-order defect (E4) corrected "
+            "in the harness and recorded as external known findings; a duplicate stanza after a retry re-send is an open finding; expiring waits are inconclusive.",
             "5/C03"),
     "C04": ("exploration",
             "generated login variants, chunkings, coalesced frames, cut-off histories and schedules against a Noise responder "
@@ -50,7 +51,8 @@ CHECKS = {
             "Every partition of every stream of 1-3 frames of length 1-3 (0.7 M cases; lengths 1-4 in the thorough tier) is "
             "enumerated completely and generated streams reach the 1/2/3-byte length classes; the oracle is the list of frames "
             "that was sent. Search, not proof: larger streams are sampled.",
-            "Trusts the recording layers of the harness and Python's struct module as the length reference.",
+            "Trusts the recording layers of the harness and Python's struct module as the length reference; a framing loop that stops "
+            "making progress is cut by a deterministic iteration budget and reported.",
             "5/C05"),
     "C06": ("exploration",
             "Hypothesis-generated stanzas/entities per catalogue kind, each executed over the complete grid of 32 layer-set "
